@@ -292,6 +292,23 @@ def _config(args):
                             if fail3 or not res3["found"]["calendar"] or not res3["found"]["addressbook"]:
                                 vio("collections-hidden-by-object-in-home-set:%s" % mode, "after an object was stored directly in the home sets the walk from %s no longer reaches the collections (%s)" % (st2, fail3 or res3["found"]), {})
                                 break
+                    if data == "retyped":
+                        # a path in the home set that was a plain collection, was looked at, was deleted, and is now a calendar / address book
+                        wk = last["homes"]["calendar"].rstrip("/") + "/work/"
+                        fr_ = last["homes"]["addressbook"].rstrip("/") + "/friends/"
+                        w.request("MKCOL", wk)
+                        w.request("MKCOL", fr_)
+                        walk(w, prefix, prefix)
+                        w.request("DELETE", wk)
+                        w.request("DELETE", fr_)
+                        r1 = w.request("MKCALENDAR", wk)
+                        r2 = w.request("MKCOL", fr_, dav.XML_CT, dav.mkcol_body(resourcetypes=["{DAV:}collection", "{%s}addressbook" % dav.CARD]))
+                        for st2 in starts:
+                            res3, fail3 = walk(w, prefix, st2)
+                            stats["walks"] += 1
+                            if r1.status != 201 or r2.status != 201 or fail3 or wk not in res3["found"]["calendar"] or fr_ not in res3["found"]["addressbook"]:
+                                vio("recreated-collection-not-discovered:%s" % mode, "a calendar / address book made at a path that earlier held a plain collection (MKCALENDAR %s, MKCOL %s) is not reached by the walk from %s: %s" % (r1.status, r2.status, st2, fail3 or res3["found"]), {"calendar": wk, "addressbook": fr_})
+                                break
             elif written:
                 for url, body in written.items():
                     if url.startswith("@"):
@@ -318,9 +335,10 @@ def run(tier, workers=None):
         grid += [(p, "/user/", "defaults", "simple", 1, True) for p in PREFIXES]
         grid += [("/dav/", u, "defaults", "proc", 2, True) for u in PRINCIPALS]
         grid += [(p, "/user/", m, "proc", 1, "stray") for p in PREFIXES[:2] for m in MODES]
+        grid += [(p, "/user/", m, f, 1, "retyped") for p in PREFIXES[:2] for m in MODES for f in ("proc", "wsgimod")]
     else:
         grid = list(itertools.product(PREFIXES, PRINCIPALS, MODES, FRONTS, [0, 1, 2], [False, True]))
-        grid += list(itertools.product(PREFIXES, PRINCIPALS, MODES, FRONTS, [1], ["stray"]))
+        grid += list(itertools.product(PREFIXES, PRINCIPALS, MODES, FRONTS, [1], ["stray", "retyped"]))
     # the wsgi-module front mutates os.environ / reloads a module: keep those configurations in their own processes too
     ctx = mp.get_context("fork")
     with ctx.Pool(nw, maxtasksperchild=8) as pool:
